@@ -201,6 +201,30 @@ def check_drop_stop(ctx, fb, rd):
     return n
 
 
+def check_resume_executor(ctx, fb, rule):
+    """every PromiseType<V, E, Lazy, Shared>::Impl — run by Here/Next whenever the coroutine is started or resumed
+    inline — takes the executor of the core that resumes it, on every path and for every coroutine kind: a Task
+    coroutine started by co_await SWAPS executors with the awaiting coroutine (IntrusivePtr move assignment is a
+    swap), so the awaiting coroutine gets its own executor back only through the same statement when the Task
+    finishes"""
+    n = 0
+    for f in sorted(fb.fn.values(), key=lambda f: f.full):
+        if f.clsq != 'yaclib::detail::PromiseType' or f.n != 'Impl' or f.cfg is None:
+            continue
+        n += 1
+        key = 'R-RESUME.executor PromiseType::Impl'
+        ctx.instance(rule, key + ' :: ' + f.cls[:120], None)
+        ws = {x['i'] for x in executor_writes(f)}
+        w = f.cfg.reaches_exit_without((f.cfg.entry, -1), lambda b, i, e: isinstance(e, int) and e in ws) if ws else [1]
+        if w is not None:
+            ctx.report(rule, key, f.where, 'a coroutine that is resumed inline does not take the executor of the core that '
+                       'resumes it (in this instantiation / on some path): after co_await of a Task coroutine, which '
+                       'swapped executors with it, it stays on the Task\'s initial inline executor — CurrentExecutor, '
+                       'Yield, AwaitSticky and a stopped executor then act on the wrong executor',
+                       'instantiation: ' + f.full[:300])
+    return n
+
+
 def check_awaiters(ctx, fb, ra):
     cands = []
     for r in fb.records.values():
@@ -266,7 +290,8 @@ def check_writers(ctx, fb, rw):
 
 
 def run(ctx):
-    fbs = ctx.facts(['K17', 'K20'], kinds=('probe', 'lib'), tests=r'/test/')
+    fbs = ctx.facts(['K17', 'K20'], kinds=('probe', 'lib'), tests=r'/test/',
+                    quick_tests=r'unit/exe/|unit/async/future\.cpp')
     rl = ctx.rule('R-LINEAR', 'Submit ends the job by exactly one of Call/Drop/enqueue on every path; dequeue sites '
                   'finish every node once', minimum=10)
     rr = ctx.rule('R-ROUTE.call', 'Call steps reach their functor only through Submit; inline steps never submit',
@@ -276,6 +301,8 @@ def run(ctx):
     rw = ctx.rule('R-ROUTE.writers', 'BaseCore::_executor is written only by the routing sites', minimum=10)
     rh2 = ctx.rule('R-HEAD.2', 'a started Task head does not move the starting step\'s executor away', minimum=6)
     rh = ctx.rule('R-HEAD', '(shared with C02/C12) heads reach their own work', minimum=6)
+    rre = ctx.rule('R-RESUME.executor', 'a coroutine resumed inline takes the resuming core\'s executor (every kind, every '
+                   'path)', minimum=2)
     rst = ctx.rule('R-START', '(shared with C12) ToFuture(e)/Detach(e): the executor is bound to the head returned by '
                    'the rewind and that head is submitted to it', minimum=2)
     for cfg, fb in sorted(fbs.items()):
@@ -297,6 +324,9 @@ def run(ctx):
             if check_awaiters(ctx, fb, ra) < 3:
                 ctx.broken('executor-naming awaiters not found')
         check_writers(ctx, fb, rw)
+        if cfg != 'K17':
+            if check_resume_executor(ctx, fb, rre) < 2:
+                ctx.broken('PromiseType::Impl not instantiated in %s' % cfg)
         from rules import c12
         c12.check_start(ctx, fb, rst)
         lib_head.check(ctx, fb, cfg, rh, rh2)
